@@ -27,6 +27,36 @@ NOT_DECIDED = ["Election Safety, Log Matching, Leader Completeness and State-Mac
 ASSUMPTIONS = ["handlers are atomic (no suspension inside Raft handlers — checked)", "the network delivers payload dictionaries unchanged"]
 
 
+NETW = "happysimulator/components/network/network.py"
+
+
+def rule_round2(ctx: Ctx) -> None:
+    prog = ctx.prog
+    # Log.truncate_from acts for every 1 <= index <= len and only then
+    tf = prog.func(LOG, "Log.truncate_from")
+    ff = ctx.flow(tf)
+    early = set()
+    for nd in ff.cfg.nodes:
+        if nd.kind == "test":
+            early |= {f.sig for f in atoms(nd.ast, True)}
+    want = {("lt", "index", "1"), ("lt", "len(self._entries)", "index")}
+    guards = {g for g in early if "index" in g[1] + g[2] and "commit" not in g[1] + g[2]}
+    cut = stmts_matching(tf, "self._entries = self._entries[:index - 1]")
+    ctx.ob("C11-5", "G3", tf, cut[0][0] if cut else None, guards == want and len(cut) == 1,
+           f"Log.truncate_from(index) is a no-op only for index < 1 or index > len, and otherwise keeps exactly the first index-1 entries (a conflict at index 1 must truncate the whole log) — guards found {sorted(guards)}")
+    # partitions: the global heal clears everything partition() records
+    net = prog.cls(NETW, "Network")
+    pt, hl = net.methods["partition"], net.methods["heal_partition"]
+    filled = set()
+    for x in walk_scope(pt.node):
+        if isinstance(x, ast.Call) and isinstance(x.func, ast.Attribute) and x.func.attr in ("add", "append", "update", "extend") and (path_of(x.func.value) or "").startswith("self._"):
+            filled.add(path_of(x.func.value))
+    cleared = {path_of(x.func.value) for x in walk_scope(hl.node) if isinstance(x, ast.Call) and isinstance(x.func, ast.Attribute) and x.func.attr == "clear"}
+    filled = {f for f in filled if "partition" in f}
+    ctx.ob("C11-9", "G2", hl, "heal clears what partition records", bool(filled) and filled <= cleared,
+           f"Network.heal_partition() clears every record Network.partition() makes ({sorted(filled)}; cleared {sorted(cleared)}): a stale handle left behind would re-block the pair when a later, overlapping partition is healed")
+
+
 def run(ctx: Ctx) -> None:
     prog = ctx.prog
     node = prog.cls(RAFT, "RaftNode")
@@ -244,11 +274,15 @@ def run(ctx: Ctx) -> None:
     ctx.ob("C11-7", "G7", ar, mi[0][0] if mi else None, okr and len(src) == 1, "the leader records exactly the match_index the follower reported, only on success, only while leader, and only from a reply of its current term (a reply from an earlier leadership stint says nothing about the current log)")
     protocol_schema(ctx, "C11-7", node)
 
-    for r, k in (("C11-1", 4), ("C11-2", 2), ("C11-3", 6), ("C11-4", 3), ("C11-5", 4), ("C11-6", 3), ("C11-7", 6), ("C11-8", 2)):
+    ctx.guarded(rule_round2)
+    for r, k in (("C11-1", 4), ("C11-2", 2), ("C11-3", 6), ("C11-4", 3), ("C11-5", 5), ("C11-6", 3), ("C11-7", 6), ("C11-8", 2), ("C11-9", 1)):
         ctx.floor(r, k)
 
 
 MUTANTS = [
+    ("truncate-from-skips-index-one", LOG, "        if index < 1 or index > len(self._entries):\n            return 0\n        removed", "        if not 1 < index <= len(self._entries):\n            return 0\n        removed", "C11-5"),
+    ("heal-keeps-partition-handles", NETW, "        self._partitioned_pairs.clear()", "        self._partitioned_pairs.clear()\n        self._active_partitions = list(self._active_partitions)", "C11-NONE"),
+    ("heal-forgets-partition-handles", NETW, "        self._active_partitions.clear()\n", "", "C11-9"),
     ("stale-term-ack-accepted", RAFT, "        if term < self._current_term:\n            return []\n\n        if follower is None:", "        if follower is None:", "C11-7"),
     ("vote-ignores-prior-vote", RAFT, "            and (self._voted_for is None or self._voted_for == candidate)\n", "", "C11-1"),
     ("vote-log-check-index-only", RAFT, "                or (last_log_term == self._log.last_term and last_log_index >= self._log.last_index)", "                or last_log_index >= self._log.last_index", "C11-1"),
